@@ -12,6 +12,7 @@ A *history* is a list of JSON-able operations::
                                  ["last"]  the most recently created call (schedule-and-cancel pairs)
     ["adv", a, chk]        top level only: advance the clock by a/16 and run one reactor iteration
                            (reactor mode) / Clock.advance (clock mode); chk: also check timeout()
+    ["raise"]              inside a body only: the running call raises Boom here (rest of its body is skipped)
     ["timeout"]            top level only, reactor mode: check timeout() (this also makes the
                            reactor move staged calls into its heap, like mainLoop does)
 
@@ -23,6 +24,10 @@ from fractions import Fraction
 
 U = 16
 PENDING, CALLED, CANCELLED = "pending", "called", "cancelled"
+
+
+class Boom(Exception):
+    """Raised on purpose by a timed call (body operation ["raise"])."""
 
 
 class Rec:
@@ -246,6 +251,10 @@ class TimerRun:
         if not self.bad:
             self.check_pending()
         for op in rec.body:
+            if op[0] == "raise":
+                self.stat("raised_calls")
+                self.events.append(("raise", cid))
+                raise Boom(cid)
             self.exec_op(op, me=rec)
 
     def eligible(self, rec):
@@ -307,8 +316,17 @@ class TimerRun:
         self.in_run = True
         self.events.append(("adv", a, self.now))
         before = len(self.pend)
+        aborted = False
         try:
             self.t.step(a / U)
+        except Boom as e:
+            # Clock.advance() lets a call's exception propagate (test double, documented); the reactor must not.
+            self.in_run = False
+            if self.mode != "clock":
+                self.fail("step-raised", "iterate() let the exception of a timed call escape: %r" % (e,))
+                return
+            aborted = True
+            self.stat("advances_aborted_by_raising_call")
         except Exception as e:  # noqa: BLE001
             self.in_run = False
             self.fail("step-raised", "iterate()/advance() raised %s: %s" % (type(e).__name__, e))
@@ -317,7 +335,7 @@ class TimerRun:
         self.stat("steps")
         if self.bad:
             return
-        for o in self.pend.values():
+        for o in (() if aborted else self.pend.values()):  # (what an aborted advance left behind runs in a later one: unjudged)
             if o.born_run != self.run_id or self.mode == "clock":
                 if o.sched <= self.now:
                     self.fail("due-call-not-run", "call %d scheduled %s/16 was still pending after the %s at %s/16"
@@ -435,6 +453,7 @@ def gen_history(rng, family=None, allow_timeout=True):
     K = rng.choice([2, 3, 5, 8, 40])
     body_p = {"generic": 0.25, "bodies": 0.8, "burst": 0.1}[family]
     chk_p = rng.choice([0.0, 0.3, 1.0]) if allow_timeout else 0.0
+    raise_p = rng.choice([0.0, 0.0, 0.1, 0.3])  # timed calls that raise
 
     def delay():
         return grid * rng.randrange(K)
@@ -454,13 +473,15 @@ def gen_history(rng, family=None, allow_timeout=True):
 
     def body(depth):
         if rng.random() > body_p:
-            return []
+            return [["raise"]] if rng.random() < raise_p / 2 else []
         ops = []
         for _ in range(rng.choice([1, 1, 2, 2, 3, 5])):
             if rng.random() < 0.15:
                 ops += sched_and_cancel()
             else:
                 ops.append(inner(depth))
+        if rng.random() < raise_p:
+            ops.insert(rng.randrange(len(ops) + 1), ["raise"])
         return ops
 
     def sched_and_cancel():
